@@ -97,6 +97,9 @@ def corpus(tier):
         docs.append(G.document([k], "fill"))
     docs += ATTR_HEAVY
     docs += STYLE_DOCS
+    from mc.gen import big
+
+    docs += [big.clip_many_children(10)[1], big.many_gradients(12, True)[1], big.many_uses(5)[1], big.nested_opacity(4)[1]]
     from mc.props import c06
 
     for k in (("linear", "numbers", "userSpaceOnUse", "rotate", "pad", "attrs", "none", "rect", "none"), ("radial", "numbers", "objectBoundingBox", "none", "reflect", "chain3own", "fxfy", "circle", "translate"),
